@@ -3,6 +3,7 @@
 
 pub mod collab;
 pub mod exec;
+pub mod logsink;
 pub mod oracle;
 pub mod props;
 pub mod report;
@@ -75,6 +76,7 @@ fn parse_args() -> Args {
 
 fn main() {
     let args = parse_args();
+    logsink::install();
     if args.prop == "worker" {
         worker::child_main(&args);
         return;
@@ -89,6 +91,7 @@ fn main() {
         }
     };
     let mut j = report.to_json();
+    j["observations"]["log_records_formatted_in_this_process"] = serde_json::json!(logsink::RECORDS.load(std::sync::atomic::Ordering::Relaxed));
     j["wall_s"] = serde_json::json!(t0.elapsed().as_secs_f64());
     let text = serde_json::to_string_pretty(&j).unwrap();
     match &args.out {
